@@ -44,7 +44,7 @@ func (b Complain) Apply(opt *Option, profile string) (string, error) {
 func rewriteHeaders(profile string, update func(flags []string) ([]string, bool)) string {
 	lines := strings.Split(profile, "\n")
 	for idx, line := range lines {
-		if !strings.HasSuffix(line, " {") {
+		if !strings.HasSuffix(line, "{") {
 			continue
 		}
 		flags := []string{}
@@ -60,11 +60,11 @@ func rewriteHeaders(profile string, update func(flags []string) ([]string, bool)
 		}
 
 		// Remove the flags definition, then set the new flags
-		header := strings.TrimSuffix(regFlags.ReplaceAllLiteralString(line, ""), " {")
+		header := strings.TrimSuffix(regFlags.ReplaceAllLiteralString(line, ""), "{")
 		if len(flags) > 0 {
-			lines[idx] = header + " flags=(" + strings.Join(flags, ",") + ") {"
+			lines[idx] = strings.TrimSuffix(header, " ") + " flags=(" + strings.Join(flags, ",") + ") {"
 		} else {
-			lines[idx] = header + "{"
+			lines[idx] = strings.TrimRight(header, " ") + " {"
 		}
 	}
 	return strings.Join(lines, "\n")
